@@ -49,7 +49,7 @@ def outcome(r):
                 last_bad_end = int(t * 1000)
                 if out_from >= 0 and out_len == 0:
                     out_len = int(t * 1000) - out_from
-        if a == "reset":
+        if a in ("reset", "setinfo"):
             last_bad_end = max(last_bad_end, int(t * 1000))
     healthy_from = last_bad_end if mode == "ok" else 10 ** 9
     connected_at = -1
@@ -78,7 +78,7 @@ def run(ctx):
         ev.add_tlc("Lifecycle liveness: Quiet ~> CONNECTED (or known-finding escape), strong fairness per task, under an outer timeout", rl)
         if rl.violated:
             raise env.MachineryError(f"liveness model violates {rl.violated}")
-    runs = run_scenarios(rng, ctx.quick, which=lambda n: not n.startswith("susp") and not n.startswith("sockfail"))
+    runs = run_scenarios(rng, ctx.quick, which=lambda n: not n.startswith(("susp", "sockfail", "noid:idle")))
     pairs = validate_runs(ctx, runs, "c09")
     report(ctx, pairs)
     recs = [outcome(r_) for r_ in runs]
